@@ -36,6 +36,7 @@ def must_see(tier):
         m[impl + ':w1!=w2'] = 20
         m[impl + ':weight0'] = 5
         m[impl + ':default-weights'] = 20
+        m[impl + ':ghost-operands'] = 20
     return m
 
 
@@ -130,6 +131,11 @@ def run_case(fam, impl, rng, rec, uni, vals, i):
         ('map' if vb is not None else 'set')
     snap_a, snap_b = setops.snapshot(a), setops.snapshot(b)
     rec.journal(repr((desc, kinda, kindb, ka, kb, w1, w2)))
+    keep_conns = None
+    if i % 5 in (0, 1):
+        # operands as they come out of a database: ghosts
+        keep_conns, ng = setops.store_and_ghostify([a, b], rec, impl + ':')
+        desc['ghost_operands'] = ng
     try:
         out = fn(a, b, w1, w2) if use_w else fn(a, b)
     except Exception as e:
